@@ -418,6 +418,14 @@ func (a *nilAn) pathFacts(fn *ssa.Function) []pathFact {
 func (a *nilAn) killedBetween(from *ssa.BasicBlock, use ssa.Instruction, key pathKey, typeName string) (bool, string) {
 	fn := from.Parent()
 	ub := use.Block()
+	// A fact on an SSA value that is (re)defined inside a loop speaks about this iteration's
+	// object only: a path that passes through the defining block again starts a new iteration,
+	// where the value is another object and the guard is evaluated anew. Such paths are not
+	// "between" the guard and the use.
+	var defBlk *ssa.BasicBlock
+	if di, ok := key.Base.(ssa.Instruction); ok && di.Block() != nil && di.Block() != from && di.Block() != ub {
+		defBlk = di.Block()
+	}
 	// forward reach from `from`
 	fwd := map[*ssa.BasicBlock]bool{}
 	var work []*ssa.BasicBlock
@@ -427,6 +435,9 @@ func (a *nilAn) killedBetween(from *ssa.BasicBlock, use ssa.Instruction, key pat
 		x := work[len(work)-1]
 		work = work[:len(work)-1]
 		for _, s := range x.Succs {
+			if s == defBlk {
+				continue
+			}
 			if !fwd[s] {
 				fwd[s] = true
 				work = append(work, s)
@@ -440,6 +451,9 @@ func (a *nilAn) killedBetween(from *ssa.BasicBlock, use ssa.Instruction, key pat
 		x := work[len(work)-1]
 		work = work[:len(work)-1]
 		for _, p := range x.Preds {
+			if p == defBlk {
+				continue
+			}
 			if !bwd[p] {
 				bwd[p] = true
 				work = append(work, p)
